@@ -158,6 +158,23 @@ def do_reader(rd, inv, kind, r, tmpdir, hp):
     return None
 
 
+def raises_same_on_fresh(rd, m, inv, dsi, kind, r, state, tmpdir, hp, exc) -> bool:
+    """A reader that raises is not by itself a violation of this property (e.g. plotting an emptied inventory raises
+    ValueError in matplotlib/numpy): it is one only if the same call on a fresh inventory with the same contents behaves
+    differently (history dependence).  The caller still compares every fingerprint afterwards."""
+    after = r.getstate()
+    try:
+        r.setstate(state)
+        fresh = m.C(dict(inv.contents), "num", False, m.datasets[dsi])
+        try:
+            do_reader(rd, fresh, kind, r, tmpdir, hp)
+        except Exception as e2:  # noqa: BLE001
+            return type(e2) is type(exc) and str(e2) == str(exc)
+        return False
+    finally:
+        r.setstate(after)
+
+
 def correspondence(rep, ctx):
     rd = ctx.rd
     thorough = ctx.tier == "thorough"
@@ -203,15 +220,18 @@ def correspondence(rep, ctx):
                     inv = m.live[h][0]
                     kind = r.choice(READERS)
                     m.log.append(f"h{h}.<{kind}>")
+                    rstate = r.getstate()
                     try:
                         do_reader(rd, inv, kind, r, tmpdir, hp)
                         if kind in ("decay", "cumulative_decays", "time_series", "numbers", "activities") and len(recorded) < 8:
                             tt = 10.0 ** r.uniform(0, 7)
                             recorded.append((list(inv.contents.items()), m.live[h][1], tt, result_fp(inv, tt)))
                     except Exception as e:  # noqa: BLE001
-                        rep.violation("failing-input", f"history {m.log!r}: reader raised {type(e).__name__}: {e}",
-                                      {"history": m.log}, True)
-                        break
+                        if not raises_same_on_fresh(rd, m, inv, m.live[h][1], kind, r, rstate, tmpdir, hp, e):
+                            rep.violation("failing-input", f"history {m.log!r}: reader raised {type(e).__name__}: {e} (a fresh "
+                                          "inventory with the same contents does not)", {"history": m.log}, True)
+                            break
+                        rep.dist("reader-raises-deterministically:" + kind)
                     m.req("read", h)
                     m.expect.append(("reader", None))
                     rep.dist("reader:" + kind)
@@ -251,12 +271,15 @@ def correspondence(rep, ctx):
                         continue
                     before_inv = {h2: inv_fp(i) for h2, (i, _) in m.live.items()}
                     before_ds = ds_fingerprint(dd)
+                    rstate = r.getstate()
                     try:
                         do_reader(rd, inv_, kind, r, tmpdir, hp)
                     except Exception as e:  # noqa: BLE001
-                        rep.violation("failing-input", f"history {m.log!r} then h{h_}.<{kind}>: raised {type(e).__name__}: {e}",
-                                      {"history": m.log}, True)
-                        break
+                        if not raises_same_on_fresh(rd, m, inv_, m.live[h_][1], kind, r, rstate, tmpdir, hp, e):
+                            rep.violation("failing-input", f"history {m.log!r} then h{h_}.<{kind}>: raised {type(e).__name__}: {e} "
+                                          "(a fresh inventory with the same contents does not)", {"history": m.log}, True)
+                            break
+                        rep.dist("reader-raises-deterministically:" + kind)
                     rep.dist("sweep-reader:" + kind)
                     if {h2: inv_fp(i) for h2, (i, _) in m.live.items()} != before_inv or ds_fingerprint(dd) != before_ds:
                         bad += 1
